@@ -156,6 +156,9 @@ where
 
 // Extract relevant information from chrony tracking data
 fn extract_bound_from_tracking(tracking: Tracking) -> (i64, ChronyClockStatus) {
+    #[cfg(aws_clock_bound_verif)]
+    let tracking = verif_rt::time::VirtTracking::new(tracking);
+
     let root_delay: f64 = tracking.root_delay.into();
     let root_dispersion: f64 = tracking.root_dispersion.into();
     let current_correction: f64 = tracking.current_correction.into();
@@ -215,6 +218,9 @@ where
 
     // Keep on running forever until we receive the instruction to stop.
     while keep_running {
+        #[cfg(aws_clock_bound_verif)]
+        verif_rt::fault_point("writer:loop");
+
         match ctx.mbox.recv() {
             Ok(Message::ClockErrorBoundData((tracking, phc_error_bound, as_of))) => {
                 // TODO use phc_error_bound here
@@ -243,6 +249,9 @@ where
 /// Entry point to this thread.
 pub fn run(ctx: Context, max_drift_ppb: u32) {
     info!("Starting shared memory writer thread");
+    #[cfg(aws_clock_bound_verif)]
+    verif_rt::fault_point("writer:start");
+
     // Create a writer to update the clock error bound shared memory segment
     let writer = match ShmWriter::new(Path::new(CLOCKBOUND_SHM_DEFAULT_PATH)) {
         Ok(writer) => {
@@ -257,6 +266,9 @@ pub fn run(ctx: Context, max_drift_ppb: u32) {
             panic!("Failed to create SHM writer");
         }
     };
+
+    #[cfg(aws_clock_bound_verif)]
+    verif_rt::fault_point("writer:ready");
 
     // Pack the writer into the updater structure.
     let updater = ShmUpdater::new(writer, max_drift_ppb);
